@@ -549,6 +549,8 @@ def join_states(an, a, b, frame, bb, widen=False):
             r_ = jv2(x, y, tag)
             if changed and not c0:
                 print('   join-change bb%s %s: %s | %s' % (bb, tag, str(x)[:80], str(y)[:80]))
+            elif dbg == '2' and r_ != x and x[0] not in ('adt', 'array', 'tuple'):
+                print('   join-diff bb%s %s: %s | %s -> %s' % (bb, tag, str(x)[:120], str(y)[:120], str(r_)[:120]))
             return r_
         return jv2(x, y, tag)
 
@@ -825,7 +827,7 @@ def join_states(an, a, b, frame, bb, widen=False):
                 if s_ in st_.hi and (s_ not in r.hi or st_.hi[s_] > r.hi[s_]):
                     r.hi[s_] = st_.hi[s_]
     if pending_guards:
-        _resolve_guards(r, a, b, pending_guards, guard_extra)
+        _resolve_guards(r, a, b, pending_guards, guard_extra, widen)
     gc_state(r)
     gc_state(a)
     changed = not (r.env == a.env and r.mem == a.mem and r.lo == a.lo and r.hi == a.hi and r.sets == a.sets and r.cons == a.cons)
@@ -833,6 +835,20 @@ def join_states(an, a, b, frame, bb, widen=False):
         why = []
         if r.env != a.env:
             why.append('env:%s' % [k for k in set(r.env) | set(a.env) if r.env.get(k) != a.env.get(k)][:4])
+            if dbg == '2':
+                def _d(p_, u, v):
+                    if u == v:
+                        return
+                    if isinstance(u, tuple) and isinstance(v, tuple) and len(u) == len(v):
+                        for i_, (m_, n_) in enumerate(zip(u, v)):
+                            _d(p_ + '.%d' % i_, m_, n_)
+                    elif isinstance(u, dict) and isinstance(v, dict):
+                        for k_ in set(u) | set(v):
+                            _d(p_ + '{%s}' % (k_,), u.get(k_), v.get(k_))
+                    else:
+                        print('      env-diff %s: %s  ->  %s' % (p_, str(u)[:150], str(v)[:150]))
+                for k in set(r.env) | set(a.env):
+                    _d(str(k), a.env.get(k), r.env.get(k))
         if r.lo != a.lo or r.hi != a.hi:
             why.append('bounds:%s' % [(k, a.lo.get(k), a.hi.get(k), r.lo.get(k), r.hi.get(k)) for k in set(r.lo) | set(a.lo) | set(r.hi) | set(a.hi)
                                        if r.lo.get(k) != a.lo.get(k) or r.hi.get(k) != a.hi.get(k)][:4])
@@ -884,7 +900,7 @@ def _with_facts(st_, facts):
     return s2_
 
 
-def _resolve_guards(r, a, b, pending, extra=None):
+def _resolve_guards(r, a, b, pending, extra=None, widen=False):
     fa = fb = None
     table = {}
     for tag, guards in pending:
@@ -905,9 +921,14 @@ def _resolve_guards(r, a, b, pending, extra=None):
                     fb = _side_facts(b, r)
                 FA = fa | (old[0] or frozenset())
                 FB = fb | (old[1] or frozenset())
+                if widen:
+                    # widening join at a loop head (a = the previous head state): the guard may only lose facts, so that the
+                    # chain of guards is descending - a fact with a constant that moves every iteration must not be re-derived
+                    FA = old[0] or frozenset()
+                    FB = frozenset(x for x in FB if x in FA)
                 keep = set(FA & FB)
                 sa_, sb_ = _with_facts(a, old[0]), _with_facts(b, old[1])
-                for f_, other in [(x, sb_) for x in FA - FB] + [(x, sa_) for x in FB - FA]:
+                for f_, other in [(x, sb_) for x in FA - FB] + ([] if widen else [(x, sa_) for x in FB - FA]):
                     if isinstance(f_, Lin) and other is not None:
                         try:
                             if other.prove_le0(f_, fast=True):
@@ -918,6 +939,8 @@ def _resolve_guards(r, a, b, pending, extra=None):
             else:
                 facts = old
             ex_ = (extra or {}).get((tag, v_))
+            if ex_ and widen and side == 'AB':
+                ex_ = [x for x in ex_ if x in (old[0] or frozenset())]
             if ex_:
                 facts = frozenset(facts or ()) | frozenset(ex_)
             if facts:
